@@ -2,7 +2,8 @@
    ExtrOcamlBasic only: bool/option/unit/list/prod/sumbool map to OCaml's; N, Z, positive, nat,
    ascii and string stay the Coq inductives. No Extract Constant. *)
 From Coq Require Import Extraction ExtrOcamlBasic.
-From TS Require Import Model.Str Model.Outcome Model.Unicode Model.Rename Spec.SerdeCase Spec.C16Spec.
+From TS Require Import Model.Str Model.Outcome Model.Unicode Model.Rename Spec.SerdeCase Spec.C16Spec
+  Model.Syntax Model.Attrs Model.TargetOs Spec.TargetOsRule.
 Extraction Language OCaml.
 Set Extraction AccessOpaque.
 Extraction "model.ml"
@@ -13,4 +14,5 @@ Extraction "model.ml"
   Rename.to_screaming_snake_case Rename.to_kebab_case Rename.to_screaming_kebab_case
   SerdeCase.serde_field_name SerdeCase.serde_variant_name SerdeCase.apply_to_field SerdeCase.apply_to_variant
   SerdeCase.rule_from_str
-  C16Spec.known_C16 C16Spec.good_C16 C16Spec.serde_name.
+  C16Spec.known_C16 C16Spec.good_C16 C16Spec.serde_name
+  TargetOs.accept_target_os TargetOsRule.os_rule TargetOsRule.cfg_parsable.
